@@ -140,6 +140,14 @@ func VerifyFunc(P *Program, C *Contracts, fn *ssa.Function, con *Contract) (res 
 	x.fnMods, x.fnModAll = x.resolveModifies(menv, con.Modifies, con.Pos)
 	// vacuity cover: requires must be satisfiable
 	x.cover(st, "requires", con.Pos)
+	for _, ch := range con.NoClose {
+		goal := "true"
+		if p := closesChannel(fn, ch); p != "" {
+			goal = "false"
+			x.warn("channel %s is closed at %s", ch, p)
+		}
+		x.oblige(st, "noclose", ch, con.Pos, goal, nil)
+	}
 	fr.onReturn = func(st *State, self *Frame, results []Val) { x.finish(st, self, results) }
 	x.enterBlock(st, fr, fn.Blocks[0], nil)
 	return res
@@ -807,3 +815,61 @@ func substIdent(e Expr, from, to string) Expr {
 }
 
 var bigZero = big.NewInt(0)
+
+// closesChannel reports where fn or one of its function literals calls close() on the variable named ch.
+func closesChannel(fn *ssa.Function, ch string) string {
+	fns := []*ssa.Function{fn}
+	for i := 0; i < len(fns); i++ {
+		fns = append(fns, fns[i].AnonFuncs...)
+	}
+	named := func(v ssa.Value) bool {
+		if refs := v.Referrers(); refs != nil {
+			for _, r := range *refs {
+				if d, ok := r.(*ssa.DebugRef); ok && d.Object() != nil && d.Object().Name() == ch {
+					return true
+				}
+			}
+		}
+		for depth := 0; depth < 4; depth++ {
+			switch n := v.(type) {
+			case *ssa.Parameter:
+				return n.Name() == ch
+			case *ssa.FreeVar:
+				return n.Name() == ch
+			case *ssa.Alloc:
+				return n.Comment == ch
+			case *ssa.UnOp:
+				v = n.X
+				continue
+			case *ssa.MakeChan:
+				// find a store of this channel into a named cell
+				for _, r := range *n.Referrers() {
+					if s, ok := r.(*ssa.Store); ok {
+						if a, ok := s.Addr.(*ssa.Alloc); ok && a.Comment == ch {
+							return true
+						}
+					}
+				}
+				return false
+			case *ssa.Phi:
+				return n.Comment == ch
+			}
+			return false
+		}
+		return false
+	}
+	for _, f := range fns {
+		for _, b := range f.Blocks {
+			for _, in := range b.Instrs {
+				c, ok := in.(*ssa.Call)
+				if !ok {
+					continue
+				}
+				if bi, ok := c.Call.Value.(*ssa.Builtin); ok && bi.Name() == "close" && len(c.Call.Args) == 1 && named(c.Call.Args[0]) {
+					return f.Prog.Fset.Position(c.Pos()).String()
+				}
+			}
+		}
+	}
+	return ""
+}
